@@ -231,6 +231,32 @@ def run(R):
             if mtoks == [w.lower() for w in bws] and (not isinstance(itoks, list) or [t.lower() for t in itoks] != mtoks):
                 T.fail.append({"law": "roundtrip parse(render ws) = ws (acronym-bearing words)", "words": ws, "style": st,
                                "rendered": rendered.decode("latin1"), "impl_tokens": repr(itoks)})
+    # (e) the variant table on acronym-bearing terms typed in a hump style: where the model's table (the unchanged code) maps the
+    # search term as typed to the replacement as typed, the implementation's table has to as well
+    for i in range(60 if quick else 2000):
+        mk = lambda: [r.choice(gen.VOCAB) if r.random() < 0.5 else r.choice(ACR_WORDS).upper() for _ in range(r.randint(2, 3))]
+        sw, rw = mk(), mk()
+        if sw[0].isupper():
+            sw[0] = r.choice(gen.VOCAB)
+        if rw[0].isupper():
+            rw[0] = r.choice(gen.VOCAB)
+        st = r.choice(["Camel", "Pascal"])
+        sm = M.ask("to_style", "default", [w.encode() for w in sw], st)
+        rm = M.ask("to_style", "default", [w.encode() for w in rw], st)
+        if not (isinstance(sm, str) and sm.startswith("x") and isinstance(rm, str) and rm.startswith("x")):
+            continue
+        search, repl = core.atom_bytes(sm), core.atom_bytes(rm)
+        styles = list(gen.DEFAULT_STYLES)
+        for which in ("core", "scanner"):
+            impl = T.vmap(which, search, repl, styles)
+            mt = M.ask("vmap_core" if which == "core" else "vmap_scan", "default", [], [], *( [False, False] if which == "core" else [False]), search, repl, ["some", styles])
+            T.bump("acronym_tables")
+            R.case(("acr_table", which, search, repl), nontrivial=True)
+            mod = {core.atom_bytes(k): core.atom_bytes(v) for k, v in mt} if isinstance(mt, list) and (not mt or isinstance(mt[0], list)) else {}
+            if mod.get(search) == repl and isinstance(impl, list) and dict(impl).get(search) != repl:
+                T.fail.append({"law": "the variant table maps the search term in the style it was typed in to the replacement in that style "
+                                      "(acronym-bearing terms)", "which": which, "style": st, "search": search.decode(), "replace": repl.decode(),
+                               "impl_value": repr(dict(impl).get(search))})
     # variant maps on non-neutral terms (model = impl)
     for _ in range(80 if quick else 2000):
         s1, s2 = rand_nonneutral(r).encode(), rand_nonneutral(r).encode()
